@@ -246,6 +246,8 @@ Definition ty_ok (t : nty) : bool :=
   | _ => false
   end.
 Definition scale_of (t : nty) : Z := match t with TDec _ _ s => s | _ => 0 end.
+(* no Decimal256 operand *)
+Definition not256 (t : nty) : bool := match t with TDec D256 _ _ => false | _ => true end.
 
 (* ------------------------------------------------------------------ casts (CastOptions.safe = false) *)
 Inductive cres := COk (z : Z) | CErr | CUnm.   (* CUnm: outside what this model describes *)
@@ -385,6 +387,9 @@ Inductive c47_case :=
   | CTy (a b : nty) (r : option nty) (panicked : bool)
   (* col(a) op col(b) on rows (x, y): operands were coerced to ct; per row the observed outcome *)
   | CCmp (a b : nty) (ct : option nty) (rows : list (Z * Z * c47_out))
+  (* the same, observed on a build WITHOUT overflow checks (the arithmetic of a --release build):
+     compared with the wrapping results of the model, no panic expected *)
+  | CCmpWrap (a b : nty) (ct : option nty) (rows : list (Z * Z * c47_out))
   (* col op literal through coercion + simplifier: truth value per column value *)
   | CLit (a b : nty) (lit_left : bool) (litv : Z) (op : cmpop) (vals : list Z) (res : list bool)
   (* col(a) [NOT] IN (literals of type b) *)
@@ -407,6 +412,15 @@ Definition row_check (a b : nty) (r : Z * Z * c47_out) : bool :=
        | OutPanic => false
        end.
 
+Definition row_check_wrap (a b : nty) (r : Z * Z * c47_out) : bool :=
+  let '(x, y, o) := r in
+  match o with
+  | OutRes l => list_eqb eres_eqb (map (fun op => eval_cmp op a x b y) all_ops) (map EOk l)
+  | OutCastErr => eres_eqb (eval_cmp OEq a x b y) ECastErr
+  | OutPlanErr => eres_eqb (eval_cmp OEq a x b y) EPlanErr
+  | OutPanic => false
+  end.
+
 Definition c47_check (c : c47_case) : bool :=
   match c with
   | CTy a b r panicked =>
@@ -418,6 +432,12 @@ Definition c47_check (c : c47_case) : bool :=
        | None => true                  (* planning failed / panicked: no coerced type observed *)
        end)
       && forallb (row_check a b) rows
+  | CCmpWrap a b ct rows =>
+      (match ct with
+       | Some _ => opt_eqb nty_eqb (comparison_coercion a b) ct
+       | None => true
+       end)
+      && forallb (row_check_wrap a b) rows
   | CLit a b lit_left litv op vals res =>
       list_eqb eres_eqb
         (map (fun v => if lit_left then eval_cmp op a litv b v else eval_cmp op a v b litv) vals)
